@@ -132,3 +132,28 @@ static const cmd_t cmds_jwe[] = {
     { NULL, NULL }
 };
 REGISTER(cmds_jwe)
+
+/* jwerewrap <jwe> <old key> <new key> : recover the CEK with the old key, wrap it to the new key
+ * (no re-encryption); prints the JWE with the added recipient, or ERR */
+static void
+c_jwerewrap(void)
+{
+    json_t *jwe = jarg(F[1]);
+    json_t *oldk = jarg(F[2]);
+    json_t *newk = jarg(F[3]);
+    json_t *cek = jose_jwe_dec_jwk(NULL, jwe, NULL, oldk);
+    if (cek && jose_jwe_enc_jwk(NULL, jwe, NULL, newk, cek))
+        putjson(jwe);
+    else
+        fputs("ERR", stdout);
+    json_decref(cek);
+    json_decref(jwe);
+    json_decref(oldk);
+    json_decref(newk);
+}
+
+static const cmd_t cmds_jwe2[] = {
+    { "jwerewrap", c_jwerewrap },
+    { NULL, NULL }
+};
+REGISTER(cmds_jwe2)
